@@ -1,11 +1,11 @@
 import FsutilModel.DiffPopU
 namespace Fsm.D
 
-variable {P : Type} [DecidableEq P]
+variable {P : Type} [DecidableEq P] {I : Type} [DecidableEq I]
 
 /-- step that consumes both heads (same path): modify, or nothing when same -/
-theorem inv_popB {O : PathOrd P} {tU : TMap P} {l u : Ent P} {ls us : List (Ent P)} {rm rm' : Option P}
-    {t t' : TMap P} (hi : Inv O tU (l :: ls) (u :: us) rm t)
+theorem inv_popB {O : PathOrd P} {tU : TMap P I} {l u : Ent P I} {ls us : List (Ent P I)} {rm rm' : Option P}
+    {t t' : TMap P I} (hi : Inv O tU (l :: ls) (u :: us) rm t)
     (hp : l.path = u.path)
     (ha : ∀ q, O.lt q u.path = true → t' q = t q)
     (hb : t' u.path = some u)
